@@ -13,6 +13,8 @@ pub enum Term {
     Lf,
     CrLf,
     Cr,
+    /// line i ends in LF, CRLF, CR for i mod 3 = 0, 1, 2 (mixed terminators within one text)
+    Mixed,
 }
 impl Term {
     fn s(&self) -> &'static str {
@@ -20,6 +22,13 @@ impl Term {
             Term::Lf => "\n",
             Term::CrLf => "\r\n",
             Term::Cr => "\r",
+            Term::Mixed => unreachable!("per-line"),
+        }
+    }
+    fn at(&self, i: usize) -> &'static str {
+        match self {
+            Term::Mixed => ["\n", "\r\n", "\r"][i % 3],
+            t => t.s(),
         }
     }
     fn name(&self) -> &'static str {
@@ -27,12 +36,14 @@ impl Term {
             Term::Lf => "lf",
             Term::CrLf => "crlf",
             Term::Cr => "cr",
+            Term::Mixed => "mixed",
         }
     }
     fn from(s: &str) -> Term {
         match s {
             "lf" => Term::Lf,
             "crlf" => Term::CrLf,
+            "mixed" => Term::Mixed,
             _ => Term::Cr,
         }
     }
@@ -55,7 +66,7 @@ impl Side {
                 p.push('x');
             }
             if !(self.last_unterminated && i + 1 == self.lines) {
-                p.push_str(self.term.s());
+                p.push_str(self.term.at(i));
             }
         }
         p
@@ -366,7 +377,7 @@ impl C05 {
 
 fn sides(tier: Tier) -> Vec<Side> {
     let max = match tier {
-        Tier::Quick => 3,
+        Tier::Quick => 4,
         Tier::Thorough => 5,
     };
     let mut v = vec![Side { lines: 0, term: Term::Lf, last_unterminated: false, wide: false }];
@@ -378,6 +389,10 @@ fn sides(tier: Tier) -> Vec<Side> {
         }
     }
     v.push(Side { lines: 2, term: Term::Lf, last_unterminated: false, wide: true });
+    for lines in 2..=max.min(4) {
+        v.push(Side { lines, term: Term::Mixed, last_unterminated: false, wide: false });
+    }
+    v.push(Side { lines: 3, term: Term::Mixed, last_unterminated: true, wide: false });
     v
 }
 
@@ -396,7 +411,7 @@ impl Prop for C05 {
             for old in sides(tier) {
                 for new in sides(tier) {
                     // terminator kinds: same on both sides, or LF against CRLF / CR
-                    if old.lines > 0 && new.lines > 0 && old.term != new.term && old.term != Term::Lf {
+                    if old.lines > 0 && new.lines > 0 && old.term != new.term && old.term != Term::Lf && new.term != Term::Mixed && old.term != Term::Mixed {
                         continue;
                     }
                     if tier == Tier::Thorough && old.lines + new.lines > 8 && alg == Algorithm::Patience {
@@ -465,8 +480,8 @@ impl Prop for C05 {
                 "similar::group_diff_ops",
                 "similar::Change::{to_string_lossy, missing_newline, as_bytes via DiffableStr}",
             ],
-            bounds: format!("line texts of 0..={} lines per side (1-character contents, one 2-character variant), terminators LF / CRLF / CR (same on both sides, or LF against CRLF / CR), last line terminated or not, x 3 algorithms x context radius {} x {{no header, header, header + byte mode with a 0xFF byte in every line}}; the diff stage is symbolic (all equality patterns of the lines); the rendering stage has no data-dependent branch and is evaluated on one model of each path, parsed and applied by an independent strict parser", match tier { Tier::Quick => 3, Tier::Thorough => 5 }, match tier { Tier::Quick => "0..=2", Tier::Thorough => "0..=3" }),
-            outside: "more lines; mixed terminators within one text; missing_newline_hint(false); non-line diffs rendered as unified diffs; str/[u8] tokenization itself (C06)".into(),
+            bounds: format!("line texts of 0..={} lines per side (1-character contents, one 2-character variant), terminators LF / CRLF / CR (same on both sides, or LF against CRLF / CR) and texts whose lines cycle through LF, CRLF, CR, last line terminated or not, x 3 algorithms x context radius {} x {{no header, header, header + byte mode with a 0xFF byte in every line}}; the diff stage is symbolic (all equality patterns of the lines); the rendering stage has no data-dependent branch and is evaluated on one model of each path, parsed and applied by an independent strict parser", match tier { Tier::Quick => 4, Tier::Thorough => 5 }, match tier { Tier::Quick => "0..=2", Tier::Thorough => "0..=3" }),
+            outside: "more lines; other mixes of terminators within one text than the LF/CRLF/CR cycle; missing_newline_hint(false); non-line diffs rendered as unified diffs; str/[u8] tokenization itself (C06)".into(),
             assumptions: vec![
                 "rendering copies line bytes without looking at them (true of the code: write_all(as_bytes) / to_string_lossy), so one model per path is exhaustive for that path".into(),
                 "H2 swap-repair switch is used only to attribute a failing case to the known finding at the compaction swap".into(),
